@@ -23,6 +23,7 @@ type Obligation struct {
 	Props  []string
 	Expr   string // source text
 	Cover  bool   // a cover query: must be SAT
+	Detail string // how a non-SMT obligation (call-graph check) was decided
 	Models []namedTerm
 	vc     *VC
 	nAsserts int
@@ -147,6 +148,8 @@ type gen struct {
 	epochVars map[string]string
 	epochs map[string]*epochInfo
 	callSeq  int
+	siteInstr ssa.Instruction        // the call a site assertion is being evaluated at
+	siteOrd   map[ssa.Instruction]int // ordinal of each call among the calls to the same name, in source order
 	roCondTerm string
 	pendingBindings []closureBinding
 	captured []string            // refs of heap cells captured by closures made in this function (any call may run them)
@@ -931,6 +934,7 @@ func (P *Program) generate(fn *ssa.Function, con *Contract, opts genOpts) (vc *V
 	order := g.analyseLoops()
 	g.zeroOffAnalysis()
 	g.privateAnalysis()
+	g.siteAnalysis()
 	// entry state
 	st := &state{heap: map[string]string{}, cells: map[*ssa.Alloc]string{}, epoch: "0"}
 	g.declare("top0", "Int")
@@ -1221,3 +1225,75 @@ func describeInstr(in ssa.Instruction) string {
 }
 
 var _ = strings.Join
+
+// calledName: the short name a site clause uses for a call: the function or method name.
+func calledName(c *ssa.CallCommon) string {
+	if c.IsInvoke() {
+		return c.Method.Name()
+	}
+	if callee := c.StaticCallee(); callee != nil {
+		return callee.Name()
+	}
+	return ""
+}
+
+// siteAnalysis numbers the calls of each name in source order and reports site clauses naming no call.
+func (g *gen) siteAnalysis() {
+	g.siteOrd = map[ssa.Instruction]int{}
+	if g.con == nil || len(g.con.Sites) == 0 {
+		return
+	}
+	byName := map[string][]ssa.Instruction{}
+	for _, b := range g.fn.Blocks {
+		for _, in := range b.Instrs {
+			if ci, ok := in.(ssa.CallInstruction); ok {
+				if n := calledName(ci.Common()); n != "" {
+					byName[n] = append(byName[n], in)
+				}
+			}
+		}
+	}
+	for n, l := range byName {
+		sort.SliceStable(l, func(i, j int) bool { return l[i].Pos() < l[j].Pos() })
+		for i, in := range l {
+			g.siteOrd[in] = i + 1
+		}
+		byName[n] = l
+	}
+	for _, s := range g.con.Sites {
+		name, k := s.Site, 0
+		if i := strings.Index(name, "#"); i >= 0 {
+			fmt.Sscanf(name[i+1:], "%d", &k)
+			name = name[:i]
+		}
+		if len(byName[name]) == 0 || k > len(byName[name]) {
+			g.curGuard = "true"
+			g.oblige("site", s.Site+" (the contract names a call this function does not make)", g.fn.Pos(), "false", s.Props)
+		}
+	}
+}
+
+// siteAsserts: the contract's assertions for this call site, evaluated in the state just before the call.
+func (g *gen) siteAsserts(instr ssa.Instruction, c *ssa.CallCommon, st *state) {
+	if g.con == nil || len(g.con.Sites) == 0 || !g.opts.functional {
+		return
+	}
+	n := calledName(c)
+	if n == "" {
+		return
+	}
+	for _, s := range g.con.Sites {
+		if s.Site != n && s.Site != fmt.Sprintf("%s#%d", n, g.siteOrd[instr]) {
+			continue
+		}
+		g.siteInstr = instr
+		e := g.pointEnv(instr.Block(), st, func(p *ssa.Phi) string { return g.vals[p] })
+		lbl := s.Label
+		if lbl == "" {
+			lbl = s.Text
+		}
+		cond := g.specBool(e, s.Expr)
+		g.siteInstr = nil
+		g.obligeAssume("site", "before "+s.Site+"/"+lbl, instr.Pos(), cond, s.Props)
+	}
+}
